@@ -259,8 +259,9 @@ Fixpoint srun (rd : list byte -> rres) (sd : list form * dir) (ops : list sop) :
   | o :: ops' => let '(sd1, xs) := sstep rd sd o in let '(sd2, ys) := srun rd sd1 ops' in (sd2, xs ++ ys)
   end.
 
-(* the part of slip.Read that matters for forms made of lists, atoms, "strings" (backslash escapes)
-   and ; comments: parentheses must balance; used by the correspondence and the witnesses *)
+(* a reader for the witnesses and examples (the theorems hold for every reader; the correspondence asks
+   the real one): forms made of lists, atoms, "strings" (backslash escapes) and ; comments, parentheses
+   must balance *)
 Fixpoint rd_scan (bs : list byte) (depth : Z) (str esc com : bool) : rres :=
   match bs with
   | [] => if str then RPartial else if (0 <? depth)%Z then RPartial else RFull
@@ -275,7 +276,6 @@ Fixpoint rd_scan (bs : list byte) (depth : Z) (str esc com : bool) : rres :=
       else if N.eqb b 59 then rd_scan bs' depth false false true
       else if N.eqb b 40 then rd_scan bs' (depth + 1)%Z false false false
       else if N.eqb b 41 then (if (depth <=? 0)%Z then RErr else rd_scan bs' (depth - 1)%Z false false false)
-      else if (128 <=? b)%N then RErr       (* slip's reader rejects non-ASCII letters outside strings and comments *)
       else rd_scan bs' depth false false false
   end.
 Definition rd_paren (bs : list byte) : rres := rd_scan bs 0%Z false false false.
